@@ -10,7 +10,7 @@ N = {'quick': 400, 'thorough': 8000}
 SEARCH_N = {'quick': 600, 'thorough': 4000}
 SHARD = 50
 CASE_TIMEOUT = 30.0
-RULE = ('bpch contents with 1-3 time blocks x 1-3 tracers in 1-3 categories, nx,ny 1-3, per-tracer layer counts 1-3 (rarely 49), nested-grid '
+RULE = ('bpch contents with 1-3 time blocks x 1-3 tracers in 1-3 categories, nx,ny 1-3, per-tracer layer counts 1-3 (rarely 48/49), nested-grid '
         'offsets, tracerinfo.dat/diaginfo.dat generated as text (category offsets 0/100/1000/2000, entries present or missing); three directions: '
         'rw = reference-encoded file -> bpch1 (noscale or scaled) -> ncf2bpch; wr = hand-built bpch-convention file -> ncf2bpch -> bpch1; '
         'b2 = bpch2 vs bpch1. Data: arbitrary finite binary32 patterns (noscale) or small dyadic values whose product with SCALE is exact (scaled). '
@@ -23,15 +23,16 @@ TRUSTED = ['numpy structured dtype over a memmap = fixed-size chunking (modelled
            'variable keys "<category>_<name>" are mapped back to (category, name index) by the harness; names are alphabetic']
 ASSUMPTIONS = ['table keys unique (tracer numbers in tracerinfo.dat, categories in diaginfo.dat); no two tracers of a file share offset+id',
                'one model grid per file and one time stamp per time block (what GEOS-Chem writes)']
-LEVEL_TEXT = ('Theorems (Props/C18.v, all closed under the global context) over Model/Bpch.v: the record-walking spec decoder inverts the spec encoder for every '
-              'content (C18_dec_enc); for every bpch-convention content of any size except (1 tracer x 2 time blocks) the model of bpch1 (header walk, time_type strides, '
-              'itemcount, assertions; field positions from the translated dtype literals) presents exactly the content (C18_reader_presents_content_partial), '
-              'ncf2bpch reproduces the words (C18_read_write_bytes_partial; the writer alone for every content: C18_writer_conforms), writing any bpch-convention view and '
-              'reading it back returns it (C18_write_read_partial); with unique table keys the dict-based name/scale/unit lookup is the offset(category)+id association '
-              '(C18_scale_lookup, C18_lookup_is_association); reader/writer layouts and pads agree (C18_layouts, re-checked against the source on every run). Refuted with '
-              'vm_compute witnesses that replay on the library (known findings): C18_one_tracer_two_times_refuted, C18_more_than_48_layers_refuted. Tie T: dtype literals, '
-              'pads and skip regenerated from _bpch.py into coq/Gen/Bpch.v; tie H: reference encoder == Coq enc, bpch1 == impl_open (incl. every error outcome on a malformed '
-              'stream), ncf2bpch == impl_write on every case. Clause 4 (bpch2) has no theorem: bpch2 cannot run on numpy 2 (known finding) and is not modelled.')
+LEVEL_TEXT = ('Theorems (Props/C18.v, all closed under the global context) over Model/Bpch.v, which describes the repaired header walk and warning '
+              '(fixes/C18-one-tracer-two-times.patch, fixes/C18-warn-format.patch): the record-walking spec decoder inverts the spec encoder for every content '
+              '(C18_dec_enc); for EVERY bpch-convention content (any number of time blocks, tracers, layers, nested offsets) and tables with unique keys the model of '
+              'bpch1 (header walk, time_type strides, itemcount, assertions; field positions from the translated dtype literals) presents exactly the content '
+              '(C18_reader_presents_content), ncf2bpch reproduces the words (C18_read_write_bytes; the writer alone: C18_writer_conforms), writing any '
+              'bpch-convention view and reading it back returns it (C18_write_read); the dict-based name/scale/unit lookup is the offset(category)+id association '
+              '(C18_scale_lookup, C18_lookup_is_association); reader/writer layouts and pads agree (C18_layouts, re-checked against the source on every run). No '
+              '_partial/_refuted theorem remains. Tie T: dtype literals, pads and skip regenerated from _bpch.py into coq/Gen/Bpch.v; tie H: reference encoder == Coq enc, '
+              'bpch1 == impl_open (incl. every error outcome on a malformed stream), ncf2bpch == impl_write on every case; corpus: the two formerly failing shapes. '
+              'Clause 4 (bpch2) has no theorem: bpch2 cannot run on numpy 2 (known finding, region 1) and is not modelled.')
 LEVEL_NOTE = ('Trusted: Coq kernel + vm_compute, py2coq and the driver normalisation, the harness (observation of the library object, string pools). Scaled WRITE '
               '(vals / scale) is checked on exact values by correspondence only; inexact binary32 scaling is decided by a Python oracle.')
 TECHNIQUE = 'Coq proof (codec round trip, reader/writer model refinement over Fortran record framing) + translation from source + differential correspondence'
@@ -489,7 +490,8 @@ def coq_term(case, obs):
     T, D = coq_tables(c)
     ref = encode(c)
     mode = 0 if case['mode'] == 'rw' else 1
-    ws = obs.get('ws', []) if mode == 0 else []
+    # well-formed mode-0 cases give the library exactly the reference encoding: the words are not repeated in the term
+    ws = obs.get('ws', []) if (mode == 0 and case.get('mut') is not None) else []
     return '(Case %d %s %s %s %s %s %d %s %s %s %s %s %s)' % (
         mode, T, D, coq_file(c), C.zlist(ref), C.zlist(ws), obs.get('size', 0), C.cbool(case.get('mut') is not None),
         C.cbool(not case['noscale']), C.cbool(obs.get('open_ok', False)), coq_view(c, obs),
@@ -520,13 +522,7 @@ def py_lookup(tabs, tr):
 def region_of(case):
     c = case['content']
     if case['mode'] == 'b2':
-        return 2
-    if case.get('mut') is not None:
-        return 0
-    if len(c['tracers']) == 1 and len(c['times']) == 2:
         return 1
-    if any(tr['dim'][2] > 48 for tr in c['tracers']):
-        return 3
     return 0
 
 
@@ -550,6 +546,8 @@ def py_check(case, obs):
         return dict(s_ok=not why, region=reg, why='; '.join(why[:3]))
     if case.get('mut') is not None:
         return dict(s_ok=True, region=0, why='')
+    if case['mode'] == 'rw' and (obs.get('ws') != encode(c) or obs.get('size') != 4 * len(obs.get('ws', []))):
+        return dict(s_ok=False, f_ok=False, region=0, why='harness: file given to the library is not the reference encoding')
     if case['mode'] == 'wr' and 'written' not in obs:
         return dict(s_ok=False, region=reg, why='library writer raised ' + str(obs.get('write_error')))
     if not obs.get('open_ok'):
